@@ -60,6 +60,11 @@ def configs(ctx):
                     "n_hof": rng.choice([2, 3, 5]), "n_stop": rng.choice([4, 6]) if ctx.quick else rng.choice([6, 10, 15]),
                     "n_pop": rng.choice([4, 6]) if ctx.quick else rng.choice([6, 10]),
                     "k": 2, "selection": bool(i % 2), "adapt": bool((i // 2) % 2), "seed": rng.randrange(10000)})
+    # warm start (an initial circuit handed to the solver), selection off and on
+    for sel in (False, True):
+        out.append({"solver": "evolutionary", "n": 3, "edges": [(0, 1), (1, 2)], "n_emitter": 1, "compiler": "stabilizer",
+                    "n_hof": 3, "n_stop": 5 if ctx.quick else 10, "n_pop": 5 if ctx.quick else 10, "k": 2,
+                    "selection": sel, "adapt": False, "seed": rng.randrange(10000), "warm": True})
     # the hybrid solver with the density-matrix compiler (the target is turned into a stabilizer inside the solver, the
     # compiled state is a density matrix): always one such run, also in the quick tier
     out.append({"solver": "hybrid", "n": 3, "edges": [(0, 1), (1, 2), (0, 2)], "n_emitter": 1, "compiler": "dm",
